@@ -208,7 +208,18 @@ fn check_inverter(p: u32, xs: &mut dyn Iterator<Item = u32>, bad: &mut Vec<Bad>)
             continue;
         }
         ev += 1;
-        let i = inv.invert(x, &d);
+        let i = match guarded(|| inv.invert(x, &d)) {
+            Ok(i) => i,
+            Err(e) => {
+                if bad.len() < 16 {
+                    bad.push(Bad {
+                        key: format!("fn=Inverter::invert;what=panic;site={}", e.site),
+                        what: format!("Inverter({}).invert({}) panicked: {}", p, x, e.short()),
+                    });
+                }
+                continue;
+            }
+        };
         if i >= p || (i as u64 * x as u64) % p as u64 != 1 % p as u64 {
             if bad.len() < 16 {
                 bad.push(Bad {
@@ -354,8 +365,16 @@ pub fn run(ctx: &Ctx) -> Report {
         })
         .collect();
     all_bad.extend(b);
+    // the documented limit of the Inverter is p < 2^28: EVERY prime of the last 2^17 (thorough
+    // 2^20) below it, where the internal products are largest
+    let top28: Vec<u64> = {
+        let lo = (1u64 << 28) - ctx.pick(1u64 << 17, 1 << 20);
+        let sieve = rm::primes_below(1 << 14);
+        (lo..1 << 28).filter(|&x| x % 2 == 1 && sieve.iter().all(|&q| x % q != 0)).collect()
+    };
     let b: Vec<Bad> = window_primes
         .par_iter()
+        .chain(top28.par_iter())
         .filter(|&&p| p < (1 << 28) && p > 2)
         .flat_map(|&p| {
             let p32 = p as u32;
